@@ -212,6 +212,35 @@ func roundTrips(id b6.FeatureID) error {
 	return nil
 }
 
+// refPostcode decodes a GB postcode ID: 2 low bits hold length-5, then 6 bits
+// per symbol (0-9, A-Z = 10-35), most significant symbol first.
+func refPostcode(v uint64) (string, bool) {
+	n := 5 + int(v&3)
+	if n > 7 {
+		return "", false
+	}
+	v >>= 2
+	b := make([]byte, n)
+	for i := n - 1; i >= 0; i-- {
+		sym := v & 63
+		if sym >= 36 {
+			return "", false
+		}
+		b[i] = alnum[(sym+26)%36] // alnum is A-Z then 0-9
+		v >>= 6
+	}
+	return string(b), v == 0
+}
+
+// refONS decodes an ONS boundary ID: letter<<40 | (year-1900)<<32 | number.
+func refONS(v uint64) (string, int, bool) {
+	letter, year, number := byte(v>>40), int((v>>32)&0xff)+1900, v&0xffffffff
+	if v>>48 != 0 || letter < 'A' || letter > 'Z' || number > 99999999 {
+		return "", 0, false
+	}
+	return fmt.Sprintf("%c%08d", letter, number), year, true
+}
+
 func aliasUsed(id b6.FeatureID) bool {
 	return !strings.HasPrefix(api.UnparseFeatureID(id, true), "/"+id.Type.String()+"/")
 }
@@ -224,16 +253,29 @@ func check(c Case) vlib.Outcome {
 			return vlib.Outcome{Skip: true}
 		}
 	}
-	// validity of alias-namespace IDs: postcodes and ONS codes must be ones the packers produce
+	// Validity of IDs in the postcode and ONS namespaces, decided by decoders
+	// written here (independent of the code under test); they also give the
+	// expected alias text.
 	for _, id := range ids {
 		if id.Namespace == b6.NamespaceGBCodePoint && id.Type == b6.FeatureTypePoint {
-			if pc, ok := b6.PostcodeFromPointID(id); !ok || b6.PointIDFromGBPostcode(pc) != id {
+			pc, ok := refPostcode(id.Value)
+			if !ok {
 				return vlib.Outcome{Skip: true, Classes: []string{"skipped:not-a-postcode-id"}}
+			}
+			if want, got := "/gb/codepoint/"+strings.ToLower(pc), api.UnparseFeatureID(id, true); got != want {
+				return vlib.Fail("UnparseFeatureID(%v) = %q, the ID packs postcode %q so expected %q", id, got, pc, want)
+			}
+			if back := b6.PointIDFromGBPostcode(pc); back != id {
+				return vlib.Fail("PointIDFromGBPostcode(%q) = %v, want %v", pc, back, id)
 			}
 		}
 		if id.Namespace == b6.NamespaceUKONSBoundaries && id.Type == b6.FeatureTypeArea {
-			if code, year, ok := b6.UKONSCodeFromFeatureID(id); !ok || len(code) != 9 || code[0] < 'A' || code[0] > 'Z' || b6.FeatureIDFromUKONSCode(code, year, id.Type) != id {
+			code, year, ok := refONS(id.Value)
+			if !ok {
 				return vlib.Outcome{Skip: true, Classes: []string{"skipped:not-an-ons-id"}}
+			}
+			if want, got := fmt.Sprintf("/uk/ons/%d/%s", year, code), api.UnparseFeatureID(id, true); got != want {
+				return vlib.Fail("UnparseFeatureID(%v) = %q, the ID packs ONS code %q year %d so expected %q", id, got, code, year, want)
 			}
 		}
 	}
